@@ -436,6 +436,12 @@ func (e *Engine) preamble(withMS bool) string {
 	sb.WriteString("(declare-fun strcat (Int Int) Int)\n(declare-fun strlen (Int) Int)\n")
 	sb.WriteString("(declare-fun isNaN (" + e.FloatSort + ") Bool)\n")
 	sb.WriteString("(declare-fun fmulU (" + e.FloatSort + " " + e.FloatSort + ") " + e.FloatSort + ")\n")
+	sb.WriteString("(declare-fun fdivU (" + e.FloatSort + " " + e.FloatSort + ") " + e.FloatSort + ")\n")
+	if e.FloatSort == "Real" {
+		// the only facts about the uninterpreted product: zero is absorbing, one is neutral (true of real multiplication)
+		sb.WriteString("(assert (forall ((c Real)) (! (= (fmulU 0.0 c) 0.0) :pattern ((fmulU 0.0 c)))))\n(assert (forall ((c Real)) (! (= (fmulU c 0.0) 0.0) :pattern ((fmulU c 0.0)))))\n")
+		sb.WriteString("(assert (forall ((c Real)) (! (= (fmulU 1.0 c) c) :pattern ((fmulU 1.0 c)))))\n(assert (forall ((c Real)) (! (= (fmulU c 1.0) c) :pattern ((fmulU c 1.0)))))\n")
+	}
 	for _, d := range e.SmtDefs {
 		if d.Mode == "" || d.Mode == mode {
 			sb.WriteString(e.floatSorts(d.Text) + "\n")
